@@ -293,6 +293,15 @@ mcase("m-write-skipping-cache", {P: [("        self.dbConn = dbConn\n", "       
                                      (RM, "        if preKeyId in self._gone:\n            return\n" + RM + "\n        self._gone.add(preKeyId)")]}, "none")
 mcase("m-write-only-flag", {P: [(RM, RM + "\n        self._lastRemoved = preKeyId")]}, "syntactic+measured (agree) | same")
 
+# state outside the database: counters / thresholds, helpers, kept handles
+mcase("m-threshold-counter", {P: [("        self.dbConn = dbConn\n", "        self.dbConn = dbConn\n        self._n = 0\n"),
+                                  (RM, RM + "\n        self._bump()\n\n    def _bump(self):\n        self._n += 1\n"
+                                            "        if self._n >= 50:\n            self.dbConn.execute(\"VACUUM\")\n            self._n = 0")]}, "none")
+mcase("m-kept-cursor", {P: [("        self.dbConn = dbConn\n", "        self.dbConn = dbConn\n        self._cur = dbConn.cursor()\n"),
+                            (RM, RM.replace("cursor = self.dbConn.cursor()", "cursor = self._cur"))]}, "measured only | same")
+mcase("m-init-only-config", {P: [("        self.dbConn = dbConn\n", "        self.dbConn = dbConn\n        self._table = \"prekeys\"\n"),
+                                 (RM, RM + "\n        assert self._table")]}, "syntactic+measured (agree) | same")
+
 shutil.rmtree(TMP, ignore_errors=True)
 print("%d cases, %d failed" % (NCASES, len(FAILED)))
 sys.exit(1 if FAILED else 0)
